@@ -126,7 +126,7 @@ class Ctx:
             step.task_exc = s.task_exception()
             self.open_steps.pop(si, None)
         sh.check_order()
-        self.pull_all(skip=si)
+        self.extra['unsolicited'] = self.pull_all(skip=si)
         self.last = step
         return step
 
@@ -207,7 +207,7 @@ class Ctx:
         if s.done:
             step.task_exc = s.task_exception()
         sh.check_order()
-        self.pull_all(skip=si)
+        self.extra['unsolicited'] = self.pull_all(skip=si)
         self.steps.append(step)
         self.last = step
         return step
